@@ -79,6 +79,7 @@ class SamplesSummary(SamplesInterface):
         copied = copy(self)
         copied._paths = None
         copied._names = None
+        copied._instance = None
         copied.model = model
 
         copied._max_log_likelihood_sample = self.max_log_likelihood_sample.subsample(
